@@ -140,6 +140,14 @@ def model_properties_cases(tier):
     for names in [(n,) for n in PROP_NAMES] + names2:
         for req in ([], [names[0]], list(names)):
             out.append({"shape": "plain", "names": list(names), "required": req})
+    # three (thorough: four) properties over names whose snake-case forms collide and whose raw-name fallbacks collide
+    # again (the renamed property must be re-checked against the properties already passed)
+    tricky = ["foo$Bar", "foo_bar", "fooBar", "foo-bar", "FooBar", "foo bar", "foobar"]
+    for names in itertools.permutations(tricky, 3):
+        out.append({"shape": "plain", "names": list(names), "required": []})
+    if tier == "thorough":
+        for names in itertools.permutations(tricky, 4):
+            out.append({"shape": "plain", "names": list(names), "required": []})
     # allOf shapes: parent by $ref + inline member; required lists on members with and without properties
     for pn in PROP_NAMES[:4]:
         for cn in PROP_NAMES[:5]:
